@@ -625,6 +625,90 @@ async fn abandoned_rpcs(_a: &Value) -> Value {
     Value::Object(out)
 }
 
+/// C08 on real networks: a node with work in flight of every kind (a slow inbound request being served, a slow outbound RPC waiting, a dial hanging on a
+/// silent socket, a background dial to a dead High-affinity peer, a subscriber, a weak reference, two connected peers) is shut down -- explicitly, or by
+/// dropping its last handle.  `variant`: "explicit" | "drop".
+async fn shutdown_scenario(a: &Value) -> Value {
+    use anemo::types::{PeerAffinity, PeerEvent, PeerInfo};
+    use std::sync::Arc;
+    let explicit = a.get("variant").and_then(|x| x.as_str()) != Some("drop");
+    struct Token;                                   // one clone of the user's service = one clone of this Arc
+    let token = Arc::new(Token);
+    let t2 = token.clone();
+    let svc = tower::ServiceExt::boxed_clone(tower::service_fn(move |r: Request<Bytes>| { let _held = t2.clone(); async move {
+        if r.body().starts_with(b"slow") { tokio::time::sleep(Duration::from_millis(8000)).await; }
+        let _ = &_held;
+        Ok::<_, std::convert::Infallible>(Response::new(r.into_body()))
+    } }));
+    let mut c = Config::default();
+    c.connect_timeout_ms = Some(6000);
+    c.shutdown_idle_timeout_ms = Some(1000);
+    c.connectivity_check_interval_ms = Some(200);
+    let subject = anemo::Network::bind("127.0.0.1:0").server_name("verif").private_key([131; 32]).config(c).start(svc).expect("subject");
+    let address = subject.local_addr();
+    let slow_echo = tower::ServiceExt::boxed_clone(tower::service_fn(|r: Request<Bytes>| async move { if r.body().starts_with(b"slow") { tokio::time::sleep(Duration::from_millis(8000)).await; } Ok::<_, std::convert::Infallible>(Response::new(r.into_body())) }));
+    let peer = |key: u8, s: tower::util::BoxCloneService<Request<Bytes>, Response<Bytes>, std::convert::Infallible>| { let mut c = Config::default(); c.connect_timeout_ms = Some(3000); let mut q = anemo::QuicConfig::default(); q.max_idle_timeout_ms = Some(3000); c.quic = Some(q);
+        anemo::Network::bind("127.0.0.1:0").server_name("verif").private_key([key; 32]).config(c).start(s).expect("peer") };
+    let (p1, p2) = (peer(132, slow_echo.clone()), peer(133, slow_echo));
+    let id1 = subject.connect(p1.local_addr()).await.expect("connect p1");
+    let _ = p2.connect(subject.local_addr()).await.expect("p2 connects");
+    for _ in 0..100 { if subject.peers().len() == 2 { break; } tokio::time::sleep(Duration::from_millis(10)).await; }
+    let (mut rx, snapshot) = subject.subscribe().expect("subscribe");
+    let weak = subject.downgrade();
+    // work in flight
+    let silent = std::net::UdpSocket::bind("127.0.0.1:0").expect("udp");
+    let dead = std::net::UdpSocket::bind("127.0.0.1:0").expect("udp");
+    subject.known_peers().insert(PeerInfo { peer_id: PeerId([99; 32]), affinity: PeerAffinity::High, address: vec![dead.local_addr().unwrap().into()] });
+    let (s1, s2, s3) = (subject.clone(), subject.clone(), p2.clone());
+    let sid = subject.peer_id();
+    let (silent_addr, p1id) = (silent.local_addr().unwrap(), id1);
+    // (calls pending ON the node hold a handle of it: only in the explicit variant, where the handle outlives the shutdown anyway)
+    let pending_dial = tokio::spawn(async move { if !explicit { drop(s1); return "not made"; } let r = tokio::time::timeout(Duration::from_secs(7), s1.connect(silent_addr)).await; drop(s1); match r { Err(_) => "hung", Ok(Err(_)) => "error", Ok(Ok(_)) => "ok" } });
+    let pending_out = tokio::spawn(async move { if !explicit { drop(s2); return "not made"; } let r = tokio::time::timeout(Duration::from_secs(7), s2.rpc(p1id, Request::new(Bytes::from_static(b"slow-out")))).await; drop(s2); match r { Err(_) => "hung", Ok(Err(_)) => "error", Ok(Ok(_)) => "ok" } });
+    let pending_in = tokio::spawn(async move { let r = tokio::time::timeout(Duration::from_secs(7), s3.rpc(sid, Request::new(Bytes::from_static(b"slow-in")))).await; match r { Err(_) => "hung", Ok(Err(_)) => "error", Ok(Ok(_)) => "ok" } });
+    tokio::time::sleep(Duration::from_millis(400)).await;
+    let clones_before = Arc::strong_count(&token);
+    let t0 = std::time::Instant::now();
+    let (shutdown_result, after_network): (Option<bool>, Option<anemo::Network>) = if explicit {
+        let r = tokio::time::timeout(Duration::from_secs(6), subject.shutdown()).await;
+        (Some(matches!(r, Ok(Ok(())))), Some(subject))
+    } else { drop(subject); (None, None) };
+    // the three pending calls hold clones of the handle: in the "drop" variant the network goes away when they are done with it
+    let pend = (tokio::time::timeout(Duration::from_secs(8), pending_dial).await.ok().and_then(|r| r.ok()), tokio::time::timeout(Duration::from_secs(8), pending_out).await.ok().and_then(|r| r.ok()), tokio::time::timeout(Duration::from_secs(8), pending_in).await.ok().and_then(|r| r.ok()));
+    let down_ms = t0.elapsed().as_millis() as u64;
+    // what the subscriber sees: the pending LostPeer events, then end of stream
+    let mut events = Vec::new();
+    let mut stream_ended = false;
+    for _ in 0..8 {
+        match tokio::time::timeout(Duration::from_millis(3000), rx.recv()).await {
+            Ok(Ok(e)) => events.push(ev(&e)),
+            Ok(Err(tokio::sync::broadcast::error::RecvError::Closed)) => { stream_ended = true; break; }
+            Ok(Err(_)) => {}
+            Err(_) => break,
+        }
+    }
+    let mut rebind_ms = None;
+    for k in 0..300 { if std::net::UdpSocket::bind(address).is_ok() { rebind_ms = Some(k * 10); break; } tokio::time::sleep(Duration::from_millis(10)).await; }
+    let mut clones_after = Arc::strong_count(&token);
+    for _ in 0..300 { clones_after = Arc::strong_count(&token); if clones_after == 1 { break; } tokio::time::sleep(Duration::from_millis(10)).await; }
+    let mut remote_saw = [false, false];
+    for _ in 0..400 { remote_saw = [!p1.peers().contains(&sid), !p2.peers().contains(&sid)]; if remote_saw[0] && remote_saw[1] { break; } tokio::time::sleep(Duration::from_millis(10)).await; }
+    let mut after = serde_json::Map::new();
+    if let Some(n) = after_network.as_ref() {
+        let t = |d: u64| Duration::from_millis(d);
+        after.insert("is_closed".into(), json!(n.is_closed()));
+        after.insert("peers".into(), json!(n.peers().len()));
+        after.insert("connect".into(), json!(match tokio::time::timeout(t(2000), n.connect(p1.local_addr())).await { Err(_) => "hung", Ok(Err(_)) => "error", Ok(Ok(_)) => "ok" }));
+        after.insert("rpc".into(), json!(match tokio::time::timeout(t(2000), n.rpc(id1, Request::new(Bytes::from_static(b"x")))).await { Err(_) => "hung", Ok(Err(_)) => "error", Ok(Ok(_)) => "ok" }));
+        after.insert("shutdown_again".into(), json!(match tokio::time::timeout(t(2000), n.shutdown()).await { Err(_) => "hung", Ok(Err(_)) => "error", Ok(Ok(_)) => "ok" }));
+        after.insert("disconnect".into(), json!(if n.disconnect(id1).is_err() { "error" } else { "ok" }));
+    }
+    let weak_upgrades = weak.upgrade().is_some();
+    json!({"variant": if explicit { "explicit" } else { "drop" }, "shutdown_ok": shutdown_result, "down_after_ms": down_ms, "pending_dial": pend.0, "pending_outbound_rpc": pend.1, "pending_inbound_rpc_seen_by_remote": pend.2,
+           "subscriber": {"snapshot": snapshot.len(), "events": events, "stream_ended": stream_ended}, "rebind_after_ms": rebind_ms, "service_clones_before": clones_before, "service_clones_after": clones_after,
+           "remote_peers_saw_disconnect": remote_saw, "weak_reference_upgrades": weak_upgrades, "calls_after_shutdown": after})
+}
+
 fn fnv(b: &[u8]) -> u64 { let mut h: u64 = 0xcbf29ce484222325; for x in b { h ^= *x as u64; h = h.wrapping_mul(0x100000001b3); } h }
 /// C02 end to end on real networks that have BOTH default timeouts configured (so both timeout middlewares are in the path): requests with
 /// header maps of 0..300 entries (a `timeout` header longer and shorter than the defaults, mixed-case names, empty and long values) and bodies of
@@ -873,9 +957,58 @@ async fn history(args: &Value) -> Value {
     json!({"ids": ids, "snapshot": snapshot.iter().map(|p| p.0[0]).collect::<Vec<u8>>(), "steps": steps, "events_on_a": events, "final_listing_on_a": listing})
 }
 
+/// C08, last sentence: the async runtime is torn down (dropped, with a bounded shutdown_timeout) at a chosen moment -- right after the networks started, with
+/// RPCs and a dial in flight, while a shutdown is running, after it finished -- with handles to the networks still alive and used afterwards.  Each moment
+/// runs on a thread of its own; reported: did it panic, did it come back within 10 s.
+fn runtime_teardown() -> Value {
+    let mut out = Vec::new();
+    for moment in ["just_started", "traffic_in_flight", "during_shutdown", "after_shutdown"] {
+        let (tx, rx) = std::sync::mpsc::channel();
+        let m = moment.to_owned();
+        std::thread::spawn(move || {
+            let r = std::panic::catch_unwind(std::panic::AssertUnwindSafe(|| {
+                let rt = tokio::runtime::Builder::new_multi_thread().worker_threads(2).enable_all().build().unwrap();
+                let (a, b) = rt.block_on(async {
+                    let slow = tower::ServiceExt::boxed_clone(tower::service_fn(|r: Request<Bytes>| async move { tokio::time::sleep(Duration::from_millis(3000)).await; Ok::<_, std::convert::Infallible>(Response::new(r.into_body())) }));
+                    let mk = |k: u8, s| { let mut c = Config::default(); c.connect_timeout_ms = Some(3000); c.shutdown_idle_timeout_ms = Some(500); anemo::Network::bind("127.0.0.1:0").server_name("verif").private_key([k; 32]).config(c).start(s).expect("network") };
+                    let (a, b) = (mk(141, slow), mk(142, echo()));
+                    if m != "just_started" {
+                        let bid = a.connect(b.local_addr()).await.expect("connect");
+                        let (a2, b2, aid) = (a.clone(), b.clone(), a.peer_id());
+                        tokio::spawn(async move { let _ = b2.rpc(aid, Request::new(Bytes::from_static(b"slow"))).await; });
+                        tokio::spawn(async move { let _ = a2.rpc(bid, Request::new(Bytes::from_static(b"x"))).await; });
+                        let silent = std::net::UdpSocket::bind("127.0.0.1:0").unwrap();
+                        let (a3, addr) = (a.clone(), silent.local_addr().unwrap());
+                        tokio::spawn(async move { let _keep = silent; let _ = a3.connect(addr).await; });
+                        tokio::time::sleep(Duration::from_millis(100)).await;
+                    }
+                    if m == "during_shutdown" { let a4 = a.clone(); tokio::spawn(async move { let _ = a4.shutdown().await; }); tokio::time::sleep(Duration::from_millis(30)).await; }
+                    if m == "after_shutdown" { let _ = a.shutdown().await; }
+                    (a, b)
+                });
+                rt.shutdown_timeout(Duration::from_millis(1500));
+                // the handles outlive the runtime: using and dropping them must not panic either
+                let (closed_a, peers_b) = (a.is_closed(), b.peers().len());
+                let _ = a.disconnect(b.peer_id());
+                drop(a); drop(b);
+                (closed_a, peers_b)
+            }));
+            let _ = tx.send(r.is_ok());
+        });
+        let res = rx.recv_timeout(Duration::from_secs(10));
+        out.push(json!({"moment": moment, "came_back_within_10s": res.is_ok(), "panicked": matches!(res, Ok(false))}));
+    }
+    json!({"moments": out})
+}
+
 fn main() {
     let args: Vec<String> = std::env::args().collect();
-    let multi = matches!(args.get(1).map(|s| s.as_str()), Some("admission") | Some("default_timeouts") | Some("rpc_pairing") | Some("history") | Some("oversize_confined") | Some("hostile_streams") | Some("network_names") | Some("claimed_name_grid") | Some("stolen_certificate") | Some("abandoned_rpcs") | Some("typed_rpc_roundtrip") | Some("busy_node_still_dials") | Some("panicking_handler") | Some("end_to_end_fidelity") | Some("mutual_dial_inflight") | Some("identity_claims_in_headers") | Some("header_only_deadline") | Some("hostile_requests"));
+    if args.get(1).map(|s| s.as_str()) == Some("runtime_teardown") {
+        std::panic::set_hook(Box::new(|_| {}));
+        println!("{}", runtime_teardown());
+        std::process::exit(0);
+    }
+    let multi = matches!(args.get(1).map(|s| s.as_str()), Some("admission") | Some("default_timeouts") | Some("rpc_pairing") | Some("history") | Some("oversize_confined") | Some("hostile_streams") | Some("network_names") | Some("claimed_name_grid") | Some("stolen_certificate") | Some("shutdown_scenario") | Some("abandoned_rpcs") | Some("typed_rpc_roundtrip") | Some("busy_node_still_dials") | Some("panicking_handler") | Some("end_to_end_fidelity") | Some("mutual_dial_inflight") | Some("identity_claims_in_headers") | Some("header_only_deadline") | Some("hostile_requests"));
     let rt = if multi {
         tokio::runtime::Builder::new_multi_thread().worker_threads(2).enable_all().build().unwrap()
     } else {
@@ -1013,6 +1146,7 @@ async fn run(args: Vec<String>) {
         "panicking_handler" => panicking_handler(&a).await,
         "auth_sweep" => auth_sweep(&a).await,
         "abandoned_rpcs" => abandoned_rpcs(&a).await,
+        "shutdown_scenario" => shutdown_scenario(&a).await,
         "codegen_routes" => codegen::codegen_routes(&a).await,
         "typed_rpc_roundtrip" => hostile::typed_rpc_roundtrip(&a).await,
         "busy_node_still_dials" => busy_node_still_dials(&a).await,
